@@ -27,6 +27,9 @@ func init() {
 		h("tx-mutated", "VerifC15TxMutated", mutOut, "accepted", "rejected"),
 		h("tx-fields", "VerifC15TxFields", []string{"sequences of more than txMaxFields top-level fields"}, "accepted", "rejected", "accepted-all-fields"),
 		h("tx-roundtrip", "VerifC15TxRoundTrip", []string{"more than txMaxActions actions; bases other than the empty and one full-size base (every base round-trips by base-roundtrip)"}),
+		{Name: "tx-longauth", Pkg: "chain", Files: []string{"chain/common.go", "chain/c15_canonical.go", "chain/c15_long.go"}, Entry: "VerifC15TxLongAuth",
+			Stubs:   []string{"auth = harness scheme with a long credential (typeID ‖ payload of the chosen length; first and last payload byte symbolic)", hashStub},
+			Outside: []string{"auth encodings of lengths other than 126..130 (thorough also 16382..16385) bytes"}},
 		h("block-bytes", "VerifC15BlockBytes", bytesOut("blockMaxLen"), "accepted", "rejected", "accepted-with-tx"),
 		h("block-mutated", "VerifC15BlockMutated", mutOut, "accepted", "rejected"),
 		h("block-roundtrip", "VerifC15BlockRoundTrip", []string{"more than blockMaxTxs transactions (each one action + auth, no base)", "header fields partly present (covered by block-bytes/block-mutated)", "a non-nil block context with P-chain height 0 (the empty message: encoded as absent, decoded as nil)", "quick: P-chain heights >= 2^14"}),
